@@ -54,4 +54,24 @@ def IsRestText (data : Bytes) (m d h : Nat) : Prop :=
     ((h = 0 ∧ data = 46 :: mt ++ 46 :: dt) ∨
      (∃ ht, Num12 ht h ∧ h ≠ 0 ∧ data = 46 :: mt ++ 46 :: dt ++ 46 :: ht))
 
+/-! ### `Date::parse` front end -/
+
+/-- the three slice patterns of `Date::_parse` (date.rs:553-564): `YYYY.MM.DD`, `YYYY.MM.D`,
+`YYYY.M.DD` by length and dot positions only -/
+def Date.isFastShape (s : Bytes) : Bool :=
+  (s.length == 10 && s[4]? == some 46 && s[7]? == some 46) ||
+  (s.length == 9 && s[4]? == some 46 && (s[7]? == some 46 || s[6]? == some 46))
+
+/-- first byte is '-' or a digit -/
+def Date.firstOk (s : Bytes) : Bool :=
+  match s[0]? with
+  | some c => c == 45 || isDigit c
+  | none => false
+
+/-- the strings `Date::parse` refuses without looking at the components (date.rs:578):
+not one of the fast shapes, not 8 bytes long, and shorter than 5 / longer than 12 bytes or
+not starting with '-' or a digit. -/
+def Date.earlyReject (s : Bytes) : Bool :=
+  !Date.isFastShape s && s.length != 8 && (decide (s.length < 5) || decide (s.length > 12) || !Date.firstOk s)
+
 end Jomini.Date
